@@ -292,39 +292,7 @@ func report(r *Runner, prop, tier, evidence, known string, noReplay bool, loadT,
 		detail := ""
 		if !noReplay && results != nil {
 			res, ok := results[groupIDs[sig]]
-			switch {
-			case !ok || !res.Ran:
-				confirmed = "not-run"
-			case g.f.Kind == "assert":
-				for _, l := range res.Failed {
-					if l == g.f.Label {
-						confirmed = "reproduced"
-					}
-				}
-				if res.Panicked {
-					confirmed = "reproduced"
-					detail = "native run panicked: " + firstLine(res.PanicMsg)
-				}
-			case g.f.Kind == "panic":
-				if res.Panicked {
-					confirmed = "reproduced"
-					detail = firstLine(res.PanicMsg)
-				}
-			case g.f.Kind == "nonterm":
-				if res.TimedOut {
-					confirmed = "reproduced"
-					detail = "native run did not return within the replay watchdog"
-				}
-			case g.f.Kind == "frame":
-				// a store into a pre-existing object has no native trap; the harness's own
-				// snapshot assertion (if it failed natively) confirms it, otherwise the
-				// store site is reported for reading.
-				if len(res.Failed) > 0 || res.Panicked {
-					confirmed = "reproduced"
-				} else {
-					confirmed = "store-site"
-				}
-			}
+			confirmed, detail = confirmNative(g.f.Kind, g.f.Label, res, ok)
 		} else if noReplay {
 			confirmed = "replay-skipped"
 		}
@@ -540,4 +508,82 @@ func assumptionsFor(prop string, natives []string) []string {
 		a = append(a, "natives/stubs exercised with concrete arguments only: "+strings.Join(natives, ", "))
 	}
 	return a
+}
+
+
+// confirmNative decides whether the native run of a counterexample shows the same failure.
+func confirmNative(kind, label string, res replayResult, ok bool) (confirmed, detail string) {
+	confirmed = "unconfirmed"
+	switch {
+	case !ok || !res.Ran:
+		confirmed = "not-run"
+	case kind == "assert":
+		for _, l := range res.Failed {
+			if l == label {
+				confirmed = "reproduced"
+			}
+		}
+		if res.Panicked {
+			confirmed = "reproduced"
+			detail = "native run panicked: " + firstLine(res.PanicMsg)
+		}
+	case kind == "panic":
+		if res.Panicked {
+			confirmed = "reproduced"
+			detail = firstLine(res.PanicMsg)
+		}
+	case kind == "nonterm":
+		if res.TimedOut {
+			confirmed = "reproduced"
+			detail = "native run did not return within the replay watchdog"
+		}
+	case kind == "frame":
+		// a store into a pre-existing object has no native trap; the harness's own
+		// snapshot assertion (if it failed natively) confirms it, otherwise the
+		// store site is reported for reading.
+		if len(res.Failed) > 0 || res.Panicked {
+			confirmed = "reproduced"
+		} else {
+			confirmed = "store-site"
+		}
+	}
+	return
+}
+
+// replayFile re-runs one recorded counterexample (a file written under evidence/replay) natively
+// against the current working tree: exit 1 with a VIOLATION line if it still fails, 0 if not.
+func replayFile(w *World, path string) int {
+	b, err := os.ReadFile(path)
+	if err != nil {
+		fmt.Fprintln(os.Stderr, "cannot read replay file:", err)
+		return 2
+	}
+	var rec struct {
+		Property  string     `json:"property"`
+		Signature string     `json:"signature"`
+		Kind      string     `json:"kind"`
+		Label     string     `json:"label"`
+		Message   string     `json:"message"`
+		Case      ReplayCase `json:"case"`
+	}
+	if err := json.Unmarshal(b, &rec); err != nil {
+		fmt.Fprintln(os.Stderr, "cannot parse replay file:", err)
+		return 2
+	}
+	workDir := filepath.Join(os.TempDir(), fmt.Sprintf("verif-replayfile-%d", os.Getpid()))
+	defer os.RemoveAll(workDir)
+	results, log, err := nativeReplay(w, workDir, []replayCaseOut{{rec.Case, 1}}, "quick")
+	if err != nil {
+		fmt.Fprintln(os.Stderr, "native replay could not run:", err, "\n"+tailStr(log, 2000))
+		return 2
+	}
+	res, ok := results[1]
+	confirmed, detail := confirmNative(rec.Kind, rec.Label, res, ok)
+	fmt.Printf("replay of %s: harness %s, choices %v, values %v\n  recorded: %s\n  native now: %s %s (failed assertions %v, panicked %v, timed out %v)\n",
+		rec.Signature, rec.Case.Harness, rec.Case.Choices, rec.Case.Vals, firstLine(rec.Message), confirmed, detail, res.Failed, res.Panicked, res.TimedOut)
+	if confirmed == "reproduced" || confirmed == "store-site" {
+		fmt.Printf("VIOLATION property=%s replay=%s\n", rec.Property, path)
+		return 1
+	}
+	return 0
 }
